@@ -1172,6 +1172,8 @@ class SQLModel:
                 )
                 for k in excess_sub_declared_keys:
                     del subsql.declared_term_dependencies[k]
+                # the merged step now stands for this extend, not for the step it was merged into
+                subsql.ops_key = f"extend({extend_node}, {subsql.terms.keys()})"
                 return subsql
         view_name = "extend_" + str(temp_id_source[0])
         temp_id_source[0] = temp_id_source[0] + 1
